@@ -518,7 +518,7 @@ class ExprGen(Gen):
         elif k == 1: toks.insert(i, toks[i])
         elif k == 2 and len(toks) > 1:
             j = r.randrange(len(toks)); toks[i], toks[j] = toks[j], toks[i]
-        elif k == 3: toks[i] = toks[i].swapcase()
+        elif k == 3: toks[i] = ''.join(c.swapcase() if c.isascii() else c for c in toks[i])
         elif k == 4: toks.insert(i, r.choice(["\x00", "\x80", "$", "!", "\xff", "\t", "'", '"', "{", "&"]))
         elif k == 5: toks = toks[:i]
         elif k == 6: toks.insert(i, r.choice([" AND ", " OR ", " NOT ", "(", ")", ",", " BETWEEN ", " IN ", " SET ", " = ", ".", "[", "]"]))
